@@ -37,6 +37,8 @@ RULE = (
     " One history in five runs against an agent doing discovery in two steps (boots = time = "
     "0 in the unauthenticated report); \"drift\" steps make the agent clock run fast by 10..864"
     "00 s (one more re-synchronisation permitted each)."
+    " \"wallstep\" steps change only what time.time shows (-400 days .. +1 day) while no time p"
+    "asses."
 )
 ASSUMPTIONS = [
     "the unbounded 'succeeds any time later' is restated as bounded progress: every operation of every generated history",
